@@ -639,3 +639,7 @@ def run_c14(tier_: str) -> int:
 
 def run(prop: str, tier_: str) -> int:
     return {"C08": run_c08, "C09": run_c09, "C13": run_c13, "C14": run_c14}[prop](tier_)
+
+
+def replay(prop: str, path: str) -> int:
+    return common.replay_by_rerun(prop, path, run)
